@@ -19,7 +19,7 @@ def run(ctx):
     D.run_harness(ctx, binary, ["run", ctx.path("cases.ndjson"), ctx.path("obs.ndjson")])
     obs = D.read_ndjson(ctx.path("obs.ndjson"))
     # role 3: judge
-    verdicts = D.judge(ctx, "C11_Judge", "C11_judge.cfg", ctx.path("obs.ndjson"))
+    verdicts = judge_chunked(ctx, obs)
     D.check_complete(verdicts, obs)
     malformed = [v for v in verdicts if v.get("sig", "").startswith("malformed")]
     if malformed:
@@ -29,6 +29,8 @@ def run(ctx):
     by_id = {o["id"]: o for o in obs}
     if not getattr(ctx, "replay", None):
         dead_driver(obs)
+    if getattr(ctx, "replay", None):
+        return replay_report(ctx, verdicts, by_id)
     keys = [(o["cls"].split(":")[0], shape_key(o["ast"]), o["expectKind"], o["out"]["k"]) for o in obs]
     evaluations = sum(o["evals"] for o in obs)
     step = max(1, len(obs) // 5)
@@ -47,6 +49,19 @@ def run(ctx):
         extra={"cases": len(obs), "variants_per_case": len(obs[0]["variants"]) if obs else 0,
                "cases_value_checked": sum(1 for o in obs if o["expectKind"] == "ok"),
                "cases_distinguishing": sum(1 for o in obs if o.get("dist"))})
+
+
+CHUNK = 5000
+
+
+def judge_chunked(ctx, obs):
+    """The judge reads a whole observation file into memory; keep each TLC run modest."""
+    verdicts = []
+    for n, i in enumerate(range(0, len(obs), CHUNK)):
+        path = ctx.path("obs-%02d.ndjson" % n)
+        D.write_ndjson(path, obs[i:i + CHUNK])
+        verdicts += D.judge(ctx, "C11_Judge", "C11_judge.cfg", path, tag="judge-%02d" % n, timeout=900)
+    return verdicts
 
 
 def shape_key(t):
@@ -90,6 +105,19 @@ def replay_case(path):
     return {k: o[k] for k in ("id", "ast", "tokensMin", "tokensFull", "gapsMin", "gapsFull", "expectKind", "depth", "cls", "dist")}
 
 
+def replay_report(ctx, verdicts, by_id):
+    """Re-judge one recorded case; the evidence of the last full run is left alone."""
+    import os
+    ev = os.path.join(D.VERIF if D.REPO == "/repo" else os.path.join(D.WORKROOT, "alt"), "evidence", ctx.prop + ".json")
+    saved = open(ev).read() if os.path.exists(ev) else None
+    rc = D.finish(ctx, verdicts, by_id, evaluations=0, rule="replay of one recorded case", nontrivial_keys=[], samples=[])
+    if saved is not None:
+        open(ev, "w").write(saved)
+    elif os.path.exists(ev):
+        os.remove(ev)
+    return rc
+
+
 def dead_driver(obs):
     kinds = {o["out"]["k"] for o in obs}
     if len(obs) < 1000 or not {"ok", "cerr"} <= kinds:
@@ -117,7 +145,7 @@ def corrupt_probe(ctx, obs):
     b["outs"]["hcorrupt"] = {"k": "ok", "items": []}
     c = copy.deepcopy(par)           # a junk-extended source was accepted
     c["id"] = c["id"] + "-junk"
-    c["junk"][0]["k"] = "compiled"
+    c["junkAccepted"] = [{"r": "min", "j": ")", "k": "compiled"}]
     D.write_ndjson(ctx.path("corrupt.ndjson"), [a, b, c, good])
     vs = {v["id"]: v for v in D.judge(ctx, "C11_Judge", "C11_judge.cfg", ctx.path("corrupt.ndjson"), tag="judge-corrupt")}
     want = {a["id"]: "syntax|value-differs", b["id"]: "syntax|renderings-evaluate-differently", c["id"]: "syntax|trailing-junk-accepted"}
